@@ -1,7 +1,7 @@
 (** C08 date/time family: lemmas about the model of C08/DtModel.v.
     Round trips (offsets arithmetically, microseconds through the exhaustive
     binary64 sweep of C08/FracSweep.v), output and input XSD lexical spaces,
-    and the exact shape of the reader's outcomes (VFault / Ok / ValueError). *)
+    and the exact shape of the reader's outcomes (VFault / Ok; never an escaping exception). *)
 From SpyneV Require Import Base.Digits Base.DigitsProofs C08.DtModel C08.ScanLemmas C08.FracSweep.
 From Coq Require Import Lia ZifyBool.
 Ltac Zify.zify_post_hook ::= Z.to_euclidean_division_equations.
@@ -405,7 +405,7 @@ Lemma datetime_reader_shape s :
   datetime_from_unicode_iso s =
   match dt_fields s with
   | None => VFault
-  | Some v => if valid_datetime v then Ok v else Crash ValueError
+  | Some v => if valid_datetime v then Ok v else VFault
   end.
 Proof.
   unfold datetime_from_unicode_iso, dt_fields.
@@ -420,27 +420,23 @@ Proof.
   destruct tl; reflexivity.
 Qed.
 
-Lemma datetime_only_valueerror s e : datetime_from_unicode_iso s = Crash e -> e = ValueError.
+(** the reader never lets an exception escape: out-of-range fields (month 13, 25:00:00, +24:00)
+    are a validation fault like any other malformed literal (repaired in /repo: "fix: answer
+    out-of-range date, time and UTC-offset fields with ValidationError") *)
+Lemma datetime_never_crashes s : is_crash (datetime_from_unicode_iso s) = false.
 Proof.
-  rewrite datetime_reader_shape. destruct (dt_fields s) as [v|]; [|discriminate].
-  destruct (valid_datetime v); [discriminate|]. intros H. inversion H. reflexivity.
+  rewrite datetime_reader_shape. destruct (dt_fields s) as [v|]; [|reflexivity].
+  destruct (valid_datetime v); reflexivity.
 Qed.
 
-Lemma datetime_crash_iff s :
-  datetime_from_unicode_iso s = Crash ValueError <->
-  exists v, dt_fields s = Some v /\ valid_datetime v = false.
+Lemma datetime_vfault_iff s :
+  datetime_from_unicode_iso s = VFault <->
+  dt_fields s = None \/ exists v, dt_fields s = Some v /\ valid_datetime v = false.
 Proof.
   rewrite datetime_reader_shape. split.
-  - destruct (dt_fields s) as [v|]; [|discriminate].
-    destruct (valid_datetime v) eqn:E; [discriminate|]. intros _. exists v. auto.
-  - intros (v & -> & ->). reflexivity.
-Qed.
-
-Lemma datetime_vfault_iff s : datetime_from_unicode_iso s = VFault <-> dt_fields s = None.
-Proof.
-  rewrite datetime_reader_shape. split.
-  - destruct (dt_fields s) as [v|]; [|reflexivity]. destruct (valid_datetime v); discriminate.
-  - intros ->. reflexivity.
+  - destruct (dt_fields s) as [v|]; [|auto].
+    destruct (valid_datetime v) eqn:E; [discriminate|]. intros _. right. exists v. auto.
+  - intros [-> | (v & -> & ->)]; reflexivity.
 Qed.
 
 Lemma datetime_ok_iff s v :
@@ -453,39 +449,39 @@ Proof.
 Qed.
 
 (** the same for the two smaller readers *)
-Lemma time_only_valueerror s e : time_from_unicode s = Crash e -> e = ValueError.
+Lemma time_never_crashes s : is_crash (time_from_unicode s) = false.
 Proof.
-  unfold time_from_unicode. destruct (scan_time s) as [[[[[h m] x] f] rest]|]; [|discriminate].
-  cbv zeta. destruct (valid_tod _); [discriminate|]. intros H. inversion H. reflexivity.
+  unfold time_from_unicode. destruct (scan_time s) as [[[[[h m] x] f] rest]|]; [|reflexivity].
+  cbv zeta. destruct (valid_tod _); reflexivity.
 Qed.
 
-Lemma time_crash_iff s :
-  time_from_unicode s = Crash ValueError <->
-  exists h m x f rest, scan_time s = Some (h, m, x, f, rest)
-                       /\ valid_tod (mktod h m x (usec_of f)) = false.
+Lemma time_vfault_iff s :
+  time_from_unicode s = VFault <->
+  scan_time s = None \/ exists h m x f rest, scan_time s = Some (h, m, x, f, rest)
+                                            /\ valid_tod (mktod h m x (usec_of f)) = false.
 Proof.
   unfold time_from_unicode. split.
-  - destruct (scan_time s) as [[[[[h m] x] f] rest]|]; [|discriminate]. cbv zeta.
-    destruct (valid_tod _) eqn:E; [discriminate|]. intros _. exists h, m, x, f, rest. auto.
-  - intros (h & m & x & f & rest & -> & E). cbv zeta. rewrite E. reflexivity.
+  - destruct (scan_time s) as [[[[[h m] x] f] rest]|]; [|auto]. cbv zeta.
+    destruct (valid_tod _) eqn:E; [discriminate|]. intros _. right. exists h, m, x, f, rest. auto.
+  - intros [-> | (h & m & x & f & rest & -> & E)]; [reflexivity|]. cbv zeta. rewrite E. reflexivity.
 Qed.
 
-Lemma date_only_valueerror s e : date_from_unicode s = Crash e -> e = ValueError.
+Lemma date_never_crashes s : is_crash (date_from_unicode s) = false.
 Proof.
-  unfold date_from_unicode. destruct (strptime_ymd s); [discriminate|].
-  destruct (scan_date_tz s) as [d|]; [|discriminate].
-  destruct (valid_date d); [discriminate|]. intros H. inversion H. reflexivity.
+  unfold date_from_unicode. destruct (strptime_ymd s); [reflexivity|].
+  destruct (scan_date_tz s) as [d|]; [|reflexivity].
+  destruct (valid_date d); reflexivity.
 Qed.
 
-Lemma date_crash_iff s :
-  date_from_unicode s = Crash ValueError <->
-  strptime_ymd s = None /\ exists d, scan_date_tz s = Some d /\ valid_date d = false.
+Lemma date_vfault_iff s :
+  date_from_unicode s = VFault <->
+  strptime_ymd s = None /\ (scan_date_tz s = None \/ exists d, scan_date_tz s = Some d /\ valid_date d = false).
 Proof.
   unfold date_from_unicode. split.
   - destruct (strptime_ymd s); [discriminate|].
-    destruct (scan_date_tz s) as [d|]; [|discriminate].
-    destruct (valid_date d) eqn:E; [discriminate|]. intros _. split; [reflexivity|]. exists d. auto.
-  - intros (-> & d & -> & ->). reflexivity.
+    destruct (scan_date_tz s) as [d|]; [|auto].
+    destruct (valid_date d) eqn:E; [discriminate|]. intros _. split; [reflexivity|]. right. exists d. auto.
+  - intros (-> & [-> | (d & -> & ->)]); reflexivity.
 Qed.
 
 (** ---- 7. no trailing text is ignored (the regexes end in \Z) ---- *)
